@@ -2,6 +2,7 @@
   Driver glue for the KFL evaluation family.
 -/
 import KsVerif.Kfl.Spec
+import KsVerif.Kfl.RedactSpec
 import KsVerif.Base.Verdict
 
 namespace KsVerif.Kfl.Driver
@@ -23,7 +24,7 @@ def observe (ast : Expr) (record : Json) : Sx × Bool :=
     .list [.atom "prep", .atom (if pre.err then "err" else "ok")],
     .list [.atom "limit", Sx.ofNat pre.prop.limit],
     .list [.atom "truth", Sx.ofBool truth],
-    .list [.atom "rec", rec.toSx],
+    .list [.atom "rec", RedactSpec.deepSx rec],
     .list [.atom "again", .atom "true", .atom "true"],
     .list [.atom "aststable", .atom "true"],
     .list [.atom "conc", .atom "true"]], pre.unsup)
@@ -44,8 +45,10 @@ inductive Aspect where
 def usesRedact (q : String) : Bool := (q.splitOn "redact").length > 1
 
 def judgeEval (aspect : Aspect) (payload impl : String) : Verdict :=
-  match Sx.parse payload with
-  | some (.list [qSx, astSx, recSx]) =>
+  match (Sx.parse payload).bind (fun x => match x with
+      | .list (a :: b :: c :: _) => some (a, b, c)
+      | _ => none) with
+  | some (qSx, astSx, recSx) =>
     match exprOfSx astSx, Json.ofSx recSx with
     | some ast, some record =>
       let (m, unsup) := observe ast record
@@ -70,7 +73,7 @@ def judgeEval (aspect : Aspect) (payload impl : String) : Verdict :=
             (match specLimit with
              | some n => fieldIs obs "limit" [toString n]
              | none => true)
-          | .frame => usesRedact q || fieldIs obs "rec" [record.toSx.toStr]
+          | .frame => usesRedact q || fieldIs obs "rec" [(RedactSpec.deepSx record).toStr]
           | .reuse => fieldIs obs "again" ["true", "true"] && fieldIs obs "aststable" ["true"] && fieldIs obs "conc" ["true"]
           | .total => true
         let prepErr := fieldIs implSx "prep" ["err"]
@@ -84,6 +87,43 @@ def judgeEval (aspect : Aspect) (payload impl : String) : Verdict :=
             | .reuse => "second evaluation identical; prepared query unchanged"
             | .total => "returns" }
     | _, _ => .bad "bad-case"
+  | _ => .bad "bad-case"
+
+/-- kfl.redact (C15): the returned record must be the spec's rewrite of the given one. -/
+def judgeRedact (payload impl : String) : Verdict :=
+  match Sx.parse payload with
+  | some (.list [_q, astSx, recSx, .list (.atom "paths" :: ps)]) =>
+    match exprOfSx astSx, Json.ofSx recSx, ps.mapM strOfSx? with
+    | some ast, some record, some paths =>
+      let (m, unsup) := observe ast record
+      let implSx := Sx.parse impl
+      let noCrash := !((impl.splitOn "panic").length > 1 || (impl.splitOn "crash").length > 1 || (impl.splitOn "timeout").length > 1)
+      let want := RedactSpec.expected record paths
+      let check (obs : Option Sx) : Bool :=
+        match want with
+        | some w => fieldIs obs "rec" [(RedactSpec.deepSx w).toStr] && fieldIs obs "truth" ["true"]
+        | none => true
+      -- defect tags: shapes of path the implementation is known to mishandle
+      let hopAfterMany := paths.any fun p =>
+        match (p.splitOn ".json()") with
+        | first :: _ :: _ => (first.splitOn "*").length > 1 || (first.splitOn "..").length > 1
+        | _ => false
+      let wildThenChild := paths.any fun p => (p.splitOn ".*.").length > 1
+      let innerDescent := paths.any fun p => (p.splitOn ".json()").any fun hop =>
+        (hop.splitOn "..").length > 1 && !hop.startsWith ".."
+      let tags := (if innerDescent then ["kfl-redact-inner-descent"] else []) ++
+                  (if hopAfterMany then ["kfl-redact-hop-after-wildcard"] else []) ++
+                  (if wildThenChild then ["kfl-redact-wildcard-adds-key"] else [])
+      let changed := match want with
+        | some w => (RedactSpec.deepSx w).toStr != (RedactSpec.deepSx record).toStr
+        | none => false
+      { corr := unsup || !noCrash || m.toStr == impl, implSpec := noCrash && check implSx,
+        modelSpec := unsup || check (some m), tags,
+        nontrivial := !unsup && want.isSome && changed,
+        cls := s!"paths={paths.length},changed={changed},model={!unsup}",
+        model := m.toStr,
+        spec := match want with | some w => (RedactSpec.deepSx w).toStr | none => "-" }
+    | _, _, _ => .bad "bad-case"
   | _ => .bad "bad-case"
 
 /-- kfl.fuzz (C13): any text against any text; the only demand is that the call returns. -/
